@@ -60,6 +60,16 @@ impl OligoCgrComputer {
         self.norm = norm;
     }
 
+    #[cfg(kmertools_verif)]
+    pub fn verif_set_max_memory(&mut self, memory: usize) {
+        self.memory = memory;
+    }
+
+    #[cfg(kmertools_verif)]
+    pub fn verif_vectorise_one(&self, seq: &[u8]) -> Result<Vec<(Point, f64)>, String> {
+        self.vectorise_one(seq)
+    }
+
     pub fn vectorise(&self) -> Result<(), String> {
         let mut reader = ktio::seq::get_reader(&self.in_path).unwrap();
         let buffer = reader
@@ -148,6 +158,21 @@ impl OligoCgrComputer {
 
         for (fmer, rmer) in KmerGenerator::new(seq, self.ksize) {
             let min_mer = u64::min(fmer, rmer);
+            #[cfg(kmertools_verif)]
+            {
+                ktio::verif::log(ktio::verif::Ev::Index {
+                    site: "oligocgr.pos_map",
+                    idx: min_mer as usize,
+                    len: self.pos_map.len(),
+                });
+                if (min_mer as usize) < self.pos_map.len() {
+                    ktio::verif::log(ktio::verif::Ev::Index {
+                        site: "oligocgr.vec",
+                        idx: self.pos_map[min_mer as usize],
+                        len: vec.len(),
+                    });
+                }
+            }
             unsafe {
                 // we already know the size of the vector and
                 // min_mer is absolutely smaller than that
